@@ -14,12 +14,31 @@ SIM_ASSUME = COMMON_ASSUME + [
 
 PROPS = {
     "C01": dict(
-        built=False, level="exploration", design_ref="4/C01",
+        built=True, level="exploration", design_ref="4/C01",
         technique="runtime differential monitor: library encoder/decoder vs independent RFC-23 reference codec over a boundary grid, plus wire taps of every socket type",
         rule="messages = all frame-length vectors over the boundary grid for N<=3 (quick) / N<=4 (thorough) plus seeded random shapes up to several MiB; handshakes = 9 socket types x identity options, tapped from real sockets. A case is non-trivial when it has a frame at a size-form boundary (0,255,256), >64 KiB, or is a multi-frame message; distinct by shape/content hash",
         text="Every message/handshake produced in the run was encoded by the real library code and judged byte-for-byte by an independent decoder; boundary grid crossed exhaustively for small N. Exploration, not proof: lengths outside the grid are sampled.",
         note="trusted: reference codec; hook H1 wraps the production ZmqCodec without altering it",
         assumptions=SIM_ASSUME,
+    ),
+    "C02": dict(
+        built=True, level="exploration", design_ref="4/C02",
+        technique="runtime monitor: every segmentation of a byte stream fed to the real decoder / real FramedRead hand-over is compared with the one-shot decode and with the reference decoder",
+        rule="streams = greeting + READY(0..3 properties) + messages (empty, 255/256, >8 KiB and >16 KiB frames) with commands in between; partitions = all 2^15 partitions of the 16 bytes after the greeting for 3 (quick) / 5 (thorough) tails, every single cut and every pair of cuts over the first 420 bytes of 6 streams, byte-at-a-time, strides 1/2/3/7/64/8191/8192/8193, seeded random partitions; socket level = single cuts, pairs around the handshake end, strides, random partitions through pipes into all 8 receiving/PUB socket types in chunked and parked-then-released delivery. Every partition is non-trivial (it has at least one cut or is the coalesced whole); distinct by (stream, cut set, mode)",
+        text="Segmentation independence is checked on the executions produced: exhaustive over all partitions of short tails and all 1-/2-cut partitions of bounded streams, sampled beyond; both at codec level (hook H1) and through the real FramedRead that is handed from the handshake to the socket.",
+        note="trusted: reference codec; in-memory pipe delivers exactly the scripted chunks",
+        assumptions=SIM_ASSUME,
+        exhaustive={"quick": False, "thorough": False},
+    ),
+    "C03": dict(
+        built=True, level="fault_enumeration", design_ref="4/C03",
+        technique="runtime monitoring under hostile input: byte streams fed to the real decoder and to all 9 socket types in isolated child processes (2 MiB stack); oracles = panic hook, abnormal child exit (abort / stack overflow), counting global allocator (peak and largest request vs bytes received), healthy-second-peer exchange",
+        rule="faults = hostile byte streams: exhaustive over the alphabet {00..07,FF,'R'} up to length 5 (quick) / 6 (thorough) after a valid greeting; 46 structure-aware classes (malformed commands/properties, 64-bit sizes incl. sign bit, 10^3..10^6 MORE frames in one write, random bytes) x 4 handshake stages x {one write, 1-byte, 7-byte reads} at codec level and x 9 socket types at socket level, plus write-failure variants. A stream is non-trivial when it gets past the greeting (stage>=2) ; distinct by construction (enumeration)",
+        text="Every generated hostile stream was executed against the real code with crash, panic and allocation monitors; a fault-enumeration claim over the listed classes and stages, not a proof for all byte streams.",
+        note="trusted: counting allocator (thread-local attribution), child exit status; heap bound 256 KiB + 128 x bytes received (legitimate worst case measured at ~50x)",
+        assumptions=SIM_ASSUME + ["non-termination is reported as inconclusive by this property (the statement lists panic, stack overflow, abort, allocation)",
+                                  "checks run on an optimised build with debug assertions and overflow checks on, child stack 2 MiB"],
+        timeout={"quick": 1800, "thorough": 7200},
     ),
     "C19": dict(
         built=True, level="exploration", design_ref="4/C19",
@@ -81,3 +100,4 @@ def write_manifest(path):
 
 
 HOOK_COMMITS = ["c9656b6"]
+FIX_COMMITS = ["48acad6", "f3d84e9", "be9d015", "f1a8fb7"]
